@@ -103,6 +103,24 @@ def run_mapping(case, ctx):
     sel = case.get('sel')
     keys = list(base)
 
+    def attr_mirror(res, what):
+        for k in list(res.keys()):
+            if not (isinstance(k, str) and k.isidentifier() and not k.startswith('__')):
+                continue
+            st_, v = ctx.call(getattr, res, k)
+            if not ctx.check('attr_mirrors_items', st_ == 'ok' and v is dict.__getitem__(res, k), lambda: 'result of %s: .%s -> %s %r but [%r] is %r' % (what, k, st_, v, k, dict.__getitem__(res, k))):
+                return
+        ks = [k for k in res.keys() if isinstance(k, str) and k.isidentifier() and not k.startswith('__')]
+        if ks:
+            k = ks[len(ks) // 2]
+            new = object()
+            res[k] = new
+            st_, v = ctx.call(getattr, res, k)
+            ctx.check('attr_mirrors_items', st_ == 'ok' and v is new, lambda: 'result of %s, after res[%r] = new: .%s -> %s %r' % (what, k, k, st_, v))
+            del res[k]
+            st_, v = ctx.call(getattr, res, k)
+            ctx.check('attr_mirrors_items', st_ == 'exc' and isinstance(v, AttributeError), lambda: 'result of %s, after del res[%r]: .%s -> %s %r' % (what, k, k, st_, v))
+
     def chk(res, exp, what, mon='mapping_model'):
         ok = type(res) is cls and list(res.keys()) == list(exp.keys()) and all(dict.__getitem__(res, k) is exp[k] or same(dict.__getitem__(res, k), exp[k]) for k in exp)
         ctx.check(mon, ok, lambda: '%s(%r) %s %r = %s %r, model %r' % (case['cls'], base, what, sel, type(res).__name__, dict(res) if isinstance(res, dict) else res, exp))
@@ -114,7 +132,8 @@ def run_mapping(case, ctx):
         if st == 'ok' and chk(res, exp, '-'):
             st2, ks = ctx.call(lambda: d.keys() - arg)
             ctx.check('mapping_model', st2 == 'ok' and list(res.keys()) == list(ks) and type(res.keys()) is ulist, lambda: '(d-k).keys() %r != d.keys()-k %r' % (list(res.keys()), ks))
-            res['__new__'] = 1  # result is a new mapping: in-place edits must not leak into d
+            res['__new__'] = 1
+            attr_mirror(res, op)  # result is a new mapping: in-place edits must not leak into d
         elif st != 'ok':
             ctx.ev('mapping_model'); ctx.fail('mapping_model', 'd - %r raised %s' % (arg, core.exc_str(res)))
     elif op == 'and':
@@ -125,6 +144,7 @@ def run_mapping(case, ctx):
             st2, ks = ctx.call(lambda: d.keys() & arg)
             ctx.check('mapping_model', st2 == 'ok' and list(res.keys()) == list(ks), lambda: '(d&k).keys() %r != d.keys()&k %r' % (list(res.keys()), ks))
             res['__new__'] = 1
+            attr_mirror(res, op)
         elif st != 'ok':
             ctx.ev('mapping_model'); ctx.fail('mapping_model', 'd & %r raised %s' % (arg, core.exc_str(res)))
     elif op == 'getlist':
@@ -133,6 +153,7 @@ def run_mapping(case, ctx):
             exp = {k: base[k] for k in sel}
             if st == 'ok' and chk(res, exp, '[list]'):
                 res['__new__'] = 1
+                attr_mirror(res, op)
             elif st != 'ok':
                 ctx.ev('mapping_model'); ctx.fail('mapping_model', 'd[%r] raised %s' % (sel, core.exc_str(res)))
         else:
@@ -162,6 +183,7 @@ def run_mapping(case, ctx):
         exp = dict(base); exp.update(o)
         if st == 'ok' and chk(res, exp, op):
             res['__new__'] = 1
+            attr_mirror(res, op)
         elif st != 'ok':
             ctx.ev('mapping_model'); ctx.fail('mapping_model', 'd %s %r raised %s' % (op, o, core.exc_str(res)))
         ctx.check('mapping_unchanged', snap_same(snap(dict(oo)), so), lambda: 'right operand changed')
@@ -183,6 +205,7 @@ def run_mapping(case, ctx):
         exp = {mp.get(k, k): v for k, v in base.items()}
         if st == 'ok' and chk(res, exp, 'relabel'):
             res['__new__'] = 1
+            attr_mirror(res, op)
         elif st != 'ok':
             ctx.ev('mapping_model'); ctx.fail('mapping_model', 'relabel raised %s' % core.exc_str(res))
     elif op == 'attr':
@@ -272,7 +295,7 @@ def gen_ulist(rng):
     return {'kind': 'ulist', 'xs': xs, 'op': rng.choice(['+', '|', '-', '&']), 'other': other}
 
 
-KEYS = ['a', 'b', 'c', 'd', 'x1', 'y2']
+KEYS = ['a', 'b', 'c', 'd', 'x1', 'y2', '_id', '_x']
 VALS = [0, 1, 'v', None, [1, 2], {'$t': [1]}, 2.5, 'w']
 
 
